@@ -48,6 +48,8 @@ def run(ck, tier):
     _verbatim(ck, p)
     from . import c09, c05
     c09._source(c05._Sub(ck, "R-C08-verbatim", "server-copy:"), p, "R-C08-verbatim")
+    ck.rule("R-C08-key", "every open document has its own server-side state: each keyed access to the table of open documents (get / get_mut / entry / remove / insert ...) uses the URI of the request through copying conversions only - not a case-folded, trimmed or otherwise many-to-one form of it, under which two open documents would share text, diagnostics and the URI their edits are addressed to")
+    c09.docmap_keys(ck, p, "R-C08-key")
 
 
 def _newline_closure(c):
